@@ -54,8 +54,13 @@ fn check_weed(rep: &mut Report, f: &File, seqs: &[Vec<u8>], what: &str) {
         // the weed FASTA in one of four layouts (wrapping, CRLF, header text) derived from its content
         let wpath = scratch::write("c13_weed.fa", &scratch::fasta_layout(seqs, scratch::natural_layout(seqs)));
         let out = scratch::path("c13_out.skf");
-        let _ = std::fs::remove_file(&out);
         let wk = build(seqs, f.k, f.rc);
+        // an output file that already exists (and is longer) must be replaced; a refused weed must write nothing
+        if wk.is_empty() {
+            let _ = std::fs::remove_file(&out);
+        } else {
+            scratch::stale(&out);
+        }
         let want = f.state.table.weed(seqs, reverse);
         let key = || format!("k={} rc={} rot={} reverse={reverse} {what} weed={}", f.k, f.rc, f.rot, seqs.iter().map(|s| String::from_utf8_lossy(s).to_string()).collect::<Vec<_>>().join("|"));
         let case = || json!({"k": f.k, "rc": f.rc, "rot": f.rot, "seed": f.seed, "reverse": reverse, "weed": seqs.iter().map(|s| String::from_utf8_lossy(s).to_string()).collect::<Vec<_>>(), "what": what});
